@@ -224,12 +224,21 @@ Section Model.
         s_deff := c_deff c *' u_pico o /' u_volt U |},
      nf_pp ++ nf_i ++ snd zi ++ snd zs).
 
-  Definition try_as_spdc (c : spdc_cfg num) : outcome (spdc num * list nonfinite) :=
+  Definition try_as_spdc_steps (c : spdc_cfg num) : outcome (spdc num * list nonfinite) :=
     bind (signal_step c) (fun signal =>
     bind (poling_step c signal) (fun ppn =>
     bind (theta_step c signal (fst ppn)) (fun cs =>
     bind (idler_step c signal cs (fst ppn)) (fun idn =>
     Ok (finish_spdc c signal (fst ppn) (snd ppn) cs (fst idn) (snd idn)))))).
+
+  (* The entry point.  [validates]: whether the code checks `signal.wavelength_nm <= pump.wavelength_nm` before anything else
+     (Gen/ConfigSites.v: cfg_validates_wavelengths, read off the source; false on the tree this was written against, where
+     that case reaches the unwrap()s inside the optimisers instead: finding F7). *)
+  Variable validates : bool.
+  Definition cfg_le (c : spdc_cfg num) : bool := nleb o (bc_wavelength_nm (c_signal c)) (pc_wavelength_nm (c_pump c)).
+  Definition try_as_spdc (c : spdc_cfg num) : outcome (spdc num * list nonfinite) :=
+    if validates && cfg_le c then Err ESignalLePump else try_as_spdc_steps c.
+  Definition entry_passes (c : spdc_cfg num) : Prop := validates = false \/ cfg_le c = false.
 
   (* ---- spdc_obj.rs: SPDC::try_as_optimum.
      Faithful to two quirks of the code: the optimum idler is computed with the OLD poling (self.pp), and the idler
@@ -281,6 +290,7 @@ Section Model.
     end%string.
 
   Definition trace_try_as_spdc (c : spdc_cfg num) : list (string * string) :=
+    if validates && cfg_le c then [("validate"%string, "err:signal_le_pump"%string)] else
     let rs := signal_step c in
     ("signal"%string, cls rs) ::
     match rs with
